@@ -78,7 +78,7 @@ func (fp *footprint) walk(a *builtArchive, recursive bool, base int64, nesting i
 }
 
 func footprintOf(a *builtArchive, recursive bool) *footprint {
-	fp := &footprint{Clean: true, MaxDepth: -1}
+	fp := &footprint{Clean: !a.dup, MaxDepth: -1} // with overwriting entries "would exceed" is a matter of reading: not judged
 	fp.walk(a, recursive, 0, 0)
 	return fp
 }
@@ -216,8 +216,11 @@ func account(r *h.Run, sc *scenario, ba *builtArchive, fp *footprint, o observat
 	if fp.Lying {
 		r.Count("lying-header")
 	}
-	if !fp.Clean && !fp.Lying {
+	if !fp.Clean && !fp.Lying && !ba.dup {
 		r.Count("unopenable-or-non-zip")
+	}
+	if ba.dup {
+		r.Count("overwriting-entries(oracle only)")
 	}
 	if l.MaxDepth < 0 {
 		r.Count("depth-limit-disabled")
